@@ -27,6 +27,7 @@ def check(repo, tier="quick"):
     res.rule("C16.b", "every option dictionary yielded by the header generators is dominated by membership tests of each constrained value it carries")
     res.rule("C16.e", "history independence: the functions through which the encoder decides level-constrained values keep no state between calls (no memo tables, caches or mutated module-level containers), so the decision for one configuration cannot be affected by an earlier one")
     res.rule("C16.c", "iter_sequence_headers filters the level table with the known values plus the candidate base format before iterating columns; the flags of extended transform parameters are decided against the table")
+    res.rule("C16.g", "known values are constrained for every configuration that emits them: each store into the known-values dictionary of codec_features_to_trivial_level_constraints is unconditional or guarded by tests of codec_features['profile'] only (the encoder emits slice_bytes for every low-delay and slice_prefix_bytes for every high-quality configuration, lossless or not)")
     res.rule("C16.d", "the validator's keys are exactly the rows of level_constraints.csv")
 
     dk = enc_tables.decoder_level_keys(repo)
@@ -44,6 +45,8 @@ def check(repo, tier="quick"):
         res.check(k in kenc, "C16.a", "key=%s" % k, "vc2_conformance/encoder", "the validator enforces the level key %r (in %s) but the encoder never consults it: with a level table that restricts %r the encoder can emit a stream the validator rejects" % (k, fn, k), by=kenc.get(k, ""))
     rule_b(repo, res)
     rule_c(repo, res)
+    rule_g(repo, res)
+    res.floor("C16.g", 7)
     from .. import lints as _lints
 
     _lints.rule(repo, res, "C16.f", ['encoder.sequence_header', 'encoder.pictures', 'codec_features', 'level_constraints', 'constraint_table'])
@@ -254,3 +257,34 @@ def rule_c(repo, res):
     rets = [r_ for r_ in ast.walk(pfn) if isinstance(r_, ast.Return)]
     ok = permitted is not None and known is not None and member and refuses and len(rets) == 1
     res.check(ok, "C16.c", "extended-transform-flags:from-table", "%s:%s" % (pm.rel, pfn.name), "asym_transform*_flag values must be chosen among the level's permitted values or the encoder must refuse", by="chosen from allowed_values_for(...) or raises")
+
+
+def rule_g(repo, res):
+    from .c07 import guards_of
+
+    m, fn = repo.func("codec_features:codec_features_to_trivial_level_constraints")
+    where = "%s:%s" % (m.rel, fn.name)
+    feat = fn.args.args[0].arg
+    rets = [r for r in ast.walk(fn) if isinstance(r, ast.Return)]
+    res.check(len(rets) == 1 and fn.body[-1] is rets[0] and dotted(rets[0].value) == "constrained_values", "C16.g", "single-exit", where, "the function must have one exit returning the dictionary it filled (an early return would skip later keys)", by="one return, last statement")
+    for n in ast.walk(fn):
+        if not isinstance(n, ast.Assign):
+            continue
+        for t in n.targets:
+            if not (isinstance(t, ast.Subscript) and dotted(t.value) == "constrained_values"):
+                continue
+            key = const_str(t.slice) or "<%s>" % norm(t.slice)
+            bad = []
+            for test, pol in guards_of(n, fn):
+                terms = test.values if isinstance(test, ast.BoolOp) else [test]
+                for term in terms:
+                    ok = isinstance(term, ast.Compare) and len(term.ops) == 1 and isinstance(term.ops[0], (ast.Eq, ast.NotEq, ast.Is, ast.IsNot)) and subscript_key(term.left, feat) == "profile" and (dotted(term.comparators[0]) or "").startswith("Profiles.")
+                    if not ok:
+                        bad.append(short(term, 60))
+            # loops other than the literal key list also make a store conditional
+            p = getattr(n, "_parent", None)
+            while p is not None and p is not fn:
+                if isinstance(p, (ast.While, ast.Try, ast.With)) or (isinstance(p, ast.For) and not (isinstance(p.iter, (ast.List, ast.Tuple)) and all(const_str(e) for e in p.iter.elts))):
+                    bad.append("inside %s" % type(p).__name__)
+                p = getattr(p, "_parent", None)
+            res.check(not bad, "C16.g", "known-value:%s" % key, where, "the known value %r is recorded only under %s: for the other configurations of the same profile the encoder still emits it (make_picture_parse) but it is not checked against the level table, so a stream the validator rejects can be produced" % (key, bad), by="unconditional or profile-guarded")
